@@ -1,19 +1,19 @@
 CONSTANTS
-  NArb = 2
+  NArb = 1
   Thr = {t1}
   PreCreated = 1
-  Kinds = {"spawn"}
-  TaskStop = TRUE
+  Kinds = {"spawn", "spawn_fn"}
+  TaskStop = FALSE
   AtomicCalls = TRUE
   EagerJoin = TRUE
   MaxCmds = 3
-  MaxSys = 2
-  Codes = {0, 7}
-  AllowBusy = FALSE
+  MaxSys = 1
+  Codes = {0}
+  AllowBusy = TRUE
   FifoLocalQueue = TRUE
   StopEndsLoop = TRUE
   FirstCodeKept = TRUE
-  ExitStopsAll = FALSE
+  ExitStopsAll = TRUE
   RunOnArbiterThread = TRUE
   StopBeforeCode = TRUE
   DeregOwnId = TRUE
@@ -23,12 +23,12 @@ CONSTANTS
   JoinWaitsExit = TRUE
   RunErrsOnNonZero = TRUE
   BlockOnExact = TRUE
-  SelfSend = FALSE
+  SelfSend = TRUE
   SelfSendViaChannel = TRUE
   NegCodeIsErr = TRUE
   CtrlBatch = 0
 SPECIFICATION Spec
 VIEW View
 SYMMETRY ThrSym
-INVARIANTS C09_FirstCodeWins C09_AllRegisteredStop C09_RunErrOnNonZero C09_EarlyStoppedDeregistered
+INVARIANTS TypeOK C10_StartOrderRespectsSendOrder C10_AtMostOnce C10_OnOwnThread C10_NothingAfterStop C10_SpawnFalseWhenGone C10_JoinAfterLoopEnd C10_BlockOnOutput
 CHECK_DEADLOCK FALSE
